@@ -47,6 +47,15 @@ FIXED = [
      ("var y = rr(4)", "y"),
      ("var e2 = eval(\"cb(5) + 1\")", "e2"),
      ("try { try { cb(6); throw(\"in\") } catch(int i) { cb(7) } } catch(s) { cb(8) }", None)],
+    # ranged-for over ranges that are neither Vector nor Map, left by break / return / throw / a throwing callback
+    [("for (c : \"hello\") { cb(1); if (c == 'l') { break } }", None),
+     ("var v = [1, 2, 3]", "v"),
+     ("for (e : retro(range(v))) { if (cb(e) > 1) { continue }; break }", None),
+     ("def fr(s) { for (c : s) { if (cb(2) > 0) { return 7 } }; 0 }", None),
+     ("var r7 = fr(\"xy\")", "r7"),
+     ("try { for (c : \"ab\") { cb(3); throw(c) } } catch(e) { cb(4) }", None),
+     ("{ for (e : range(v)) { { cb(e); if (e == 2) { break } } } }", None),
+     ("var c = 5", "c")],
 ]
 
 
@@ -95,7 +104,10 @@ class Gen:
             return f"for (var {i} = 0; {i} < 2; ++{i}) {{ {self.block(d - 1, vars_ + [i], True, in_fun)} }}"
         if c < 0.66:
             e = self.fresh("e")
-            return f"for ({e} : [1, 2]) {{ {self.block(d - 1, vars_ + [e], True, in_fun)} }}"
+            # every kind of range the loop iterates: Vector and Map have their own branches, everything else goes through range()/front()/pop_front()
+            src = r.choice(["[1, 2]", "[1, 2]", "\"ab\"", "range([1, 2])", "retro(range([1, 2]))", "[\"k\": 1, \"l\": 2]"])
+            inner = vars_ + [e] if src.startswith("[1") or "range" in src else list(vars_)
+            return f"for ({e} : {src}) {{ {self.block(d - 1, inner, True, in_fun)} }}"
         if c < 0.72:
             w = self.fresh("w")
             vars_.append(w)
@@ -107,9 +119,9 @@ class Gen:
         if c < 0.86:
             return f"switch ({self.expr(1, vars_)}) {{ case (1) {{ {self.block(d - 1, list(vars_), in_loop, in_fun)} }} default {{ cb(3) }} }}"
         if c < 0.90 and in_loop:
-            return f"if (cb(1) > 5) {{ {r.choice(['break', 'continue'])} }}"
+            return f"if (cb(1) > {r.choice([0, 0, 5])}) {{ {r.choice(['break', 'continue'])} }}"      # taken (threshold 0) or not (5)
         if c < 0.94 and in_fun:
-            return f"if (cb(1) > 5) {{ return {self.expr(1, vars_)} }}"
+            return f"if (cb(1) > {r.choice([0, 5, 5])}) {{ return {self.expr(1, vars_)} }}"
         return f"map([1, 2], fun(x) {{ cb(x) }})"
 
     def block(self, d, vars_, in_loop, in_fun):
